@@ -21,13 +21,19 @@ Theorem C11_roundtrip_plain : forall a, on_sheet a -> sheet_ok (a_sheet a) = tru
 Proof. exact roundtrip_plain. Qed.
 Print Assumptions C11_roundtrip_plain.
 Theorem C11_roundtrip_quoted : forall a, on_sheet a -> sheet_ok_quoted (a_sheet a) = true ->
-  create (quoted_address a) [] None = Ok (VA a).
+  bind (quoted_address a) (fun t => create t [] None) = Ok (VA a).
 Proof. exact roundtrip_quoted. Qed.
 Print Assumptions C11_roundtrip_quoted.
 Theorem C11_roundtrip_abs : forall a, on_sheet a -> sheet_ok_quoted (a_sheet a) = true ->
-  create (abs_address a) [] None = Ok (VA a).
+  bind (abs_address a) (fun t => create t [] None) = Ok (VA a).
 Proof. exact roundtrip_abs. Qed.
 Print Assumptions C11_roundtrip_abs.
+(* the absolute form as the formula compiler reads it (RangeNode._emit strips every '$' of the
+   token first): the same address, for the names without '$' (sheet_ok_formula) *)
+Theorem C11_roundtrip_abs_stripped : forall a, on_sheet a -> sheet_ok_formula (a_sheet a) = true ->
+  bind (abs_address a) (fun t => create (strip_dollar t) [] None) = Ok (VA a).
+Proof. exact roundtrip_abs_stripped. Qed.
+Print Assumptions C11_roundtrip_abs_stripped.
 
 (* A1 text, R1C1 text and the (col, row) tuple constructor denote one cell *)
 Theorem C11_notations : forall s c r, sheet_ok s = true -> 1 <= c <= MAX_COL -> 1 <= r <= MAX_ROW ->
@@ -151,13 +157,13 @@ Theorem C11_roundtrip_unbounded_plain : forall a, unbounded_on_sheet a -> sheet_
 Proof. exact roundtrip_unbounded_plain. Qed.
 Print Assumptions C11_roundtrip_unbounded_plain.
 Theorem C11_roundtrip_unbounded_quoted : forall a, unbounded_on_sheet a -> sheet_ok_quoted (a_sheet a) = true ->
-  create (quoted_address a) [] None = Ok (VA a).
+  bind (quoted_address a) (fun t => create t [] None) = Ok (VA a).
 Proof. exact roundtrip_unbounded_quoted. Qed.
 Print Assumptions C11_roundtrip_unbounded_quoted.
 (* partial: [abs_form_ok] excludes the single-column range A:A, whose printed absolute
    form $A$0:$A$0 reads back as the "cell" (1, 0) (C11_unbounded_abs_roundtrip_refuted) *)
 Theorem C11_roundtrip_unbounded_abs_partial : forall a, unbounded_on_sheet a -> abs_form_ok a ->
-  sheet_ok_quoted (a_sheet a) = true -> create (abs_address a) [] None = Ok (VA a).
+  sheet_ok_quoted (a_sheet a) = true -> bind (abs_address a) (fun t => create t [] None) = Ok (VA a).
 Proof. exact roundtrip_unbounded_abs. Qed.
 Print Assumptions C11_roundtrip_unbounded_abs_partial.
 (* Excel's own absolute spelling $A:$C / $2:$5 denotes the same range *)
